@@ -370,6 +370,23 @@ def run_case(case, seg, viol, unsound, stats, sample):
             viol.append({"clause": "set of reported combinations depends on which optimum the solver returns",
                          "detail": dict(detail0, only_plain=[list(x) for x in sorted(s1 - s2)[:1]],
                                         only_adversary=[list(x) for x in sorted(s2 - s1)[:1]], seed=a)})
+    # --- history: the same evidence object was used for another structure before (genotype() does that
+    #     whenever the structure stage returns several solutions)
+    SIM.reset({"monitor": True})
+    cov_h = SL.make_coverage(gene, table, profile)
+    other = list(cn) + ["1"] if len(cn) < 4 else list(cn)[:-1]
+    try:
+        MJ.estimate_major(gene, cov_h, CNSolution(gene, 0, other), "cbc")
+    except Exception:
+        pass
+    sols_h = MJ.estimate_major(gene, cov_h, CNSolution(gene, 0, cn), "cbc")
+    stats["runs"] += 1
+    hist = {(_key(s_), round(s_.score, 4)) for s_ in sols_h}
+    if hist != {(_key(s_), round(s_.score, 4)) for s_ in sols}:
+        viol.append({"clause": "result depends on an earlier call that used the same evidence object",
+                     "detail": dict(detail0, earlier_structure=other,
+                                    fresh=sorted([list(k[0]), sc] for (k, sc) in {(_key(s_), round(s_.score, 4)) for s_ in sols})[:3],
+                                    after_history=sorted([list(k[0]), sc] for (k, sc) in hist)[:3])})
     # --- jitter
     SIM.reset({"jitter": seg["jitter"], "monitor": True})
     sols3, ev3, _ = call()
